@@ -99,11 +99,7 @@ func (w *Walker) walk(fr *Frame, visit func(fr *Frame)) {
 			if !ok {
 				continue
 			}
-			for _, a := range ci.Common().Args {
-				mc := staticClosureOf(a, 0)
-				if mc == nil {
-					continue
-				}
+			for _, mc := range closureArgs(ci) {
 				fn, _ := mc.Fn.(*ssa.Function)
 				if fn == nil || fn.Blocks == nil || onChain(fr, fn) {
 					continue
@@ -307,8 +303,17 @@ func (w *Walker) chainMust(fr *Frame, site ssa.Instruction) bool {
 	if !siteMust(site) {
 		return false
 	}
-	for f := fr; f != nil && f.Parent != nil; f = f.Parent {
+	for f := fr; f != nil && f.Parent != nil; {
 		if f.Call == nil {
+			// a step handed to a first-error combinator (firstError(step1, step2, …)) runs on
+			// every path on which the combinator call returns nil
+			if vs := firstErrorStep(f); vs != nil {
+				if !siteMust(vs) || !errorPropagated(vs) {
+					return false
+				}
+				f = f.Via
+				continue
+			}
 			return false // closure: may (per-iteration analysis is separate)
 		}
 		if !siteMust(f.Call) {
@@ -317,8 +322,22 @@ func (w *Walker) chainMust(fr *Frame, site ssa.Instruction) bool {
 		if !errorPropagated(f.Call) {
 			return false
 		}
+		f = f.Parent
 	}
 	return true
+}
+
+// firstErrorStep: the frame is a closure passed as one of the steps of a first-error
+// combinator call; returns that call.
+func firstErrorStep(f *Frame) ssa.CallInstruction {
+	if f == nil || f.MC == nil || f.Via == nil || f.ViaSite == nil {
+		return nil
+	}
+	ci, ok := f.ViaSite.(ssa.CallInstruction)
+	if !ok || ci.Common().IsInvoke() || !firstErrorCombinator(ci.Common().StaticCallee()) {
+		return nil
+	}
+	return ci
 }
 
 // errorPropagated: if the call returns an error, the caller tests it and the
@@ -449,27 +468,40 @@ func siteOf(chain []*Frame, i int, e *Event) ssa.Instruction {
 	if chain[i].Call != nil {
 		return chain[i].Call
 	}
+	if vs := firstErrorStep(chain[i]); vs != nil && i > 0 && chain[i].Via == chain[i-1] {
+		return vs // a step of firstError(…): executed as part of that call
+	}
 	if chain[i].MC != nil {
 		return chain[i].MC
 	}
 	return nil
 }
 
+// entrySite: the call through which the frame is certainly entered when its parent reaches
+// it - the call instruction, or the first-error combinator call the closure is a step of.
+func entrySite(f *Frame) ssa.CallInstruction {
+	if f.Call != nil {
+		return f.Call
+	}
+	return firstErrorStep(f)
+}
+
 func mustBelow(chain []*Frame, i int, e *Event) bool {
 	for j := i; j < len(chain); j++ {
 		var s ssa.Instruction
 		if j+1 < len(chain) {
-			if chain[j+1].Call == nil {
+			es := entrySite(chain[j+1])
+			if es == nil {
 				return false
 			}
-			s = chain[j+1].Call
+			s = es
 		} else {
 			s = e.Site
 		}
 		if !siteMust(s) {
 			return false
 		}
-		if chain[j].Call == nil || !errorPropagated(chain[j].Call) {
+		if es := entrySite(chain[j]); es == nil || !errorPropagated(es) {
 			return false
 		}
 	}
@@ -481,6 +513,9 @@ func mustBelow(chain []*Frame, i int, e *Event) bool {
 func mutualMust(s1, s2 ssa.Instruction) bool {
 	if s1.Parent() != s2.Parent() {
 		return false
+	}
+	if s1 == s2 {
+		return true // two steps of one first-error combinator call
 	}
 	first, second := s1, s2
 	if s1.Block() == s2.Block() {
@@ -638,11 +673,9 @@ func (cx *Ctx) closurePassedAsArg(fn *ssa.Function) bool {
 					if !ok {
 						continue
 					}
-					for _, a := range ci.Common().Args {
-						if mc := staticClosureOf(a, 0); mc != nil {
-							if g, ok := mc.Fn.(*ssa.Function); ok {
-								cx.passed[g] = true
-							}
+					for _, mc := range closureArgs(ci) {
+						if g, ok := mc.Fn.(*ssa.Function); ok {
+							cx.passed[g] = true
 						}
 					}
 				}
@@ -1405,14 +1438,20 @@ func closureAncestor(ev *Event) (*Frame, ssa.Instruction) {
 // call of its function (errors need not propagate inside iterator bodies).
 func mustBelowSite(ev *Event, cf *Frame) bool {
 	var site ssa.Instruction = ev.Site
-	for f := ev.Fr; f != nil && f != cf; f = f.Parent {
+	for f := ev.Fr; f != nil && f != cf; {
 		if !siteMust(site) {
 			return false
 		}
 		if f.Call == nil {
+			if vs := firstErrorStep(f); vs != nil {
+				site = vs
+				f = f.Via
+				continue
+			}
 			return false
 		}
 		site = f.Call
+		f = f.Parent
 	}
 	return true
 }
@@ -1816,4 +1855,29 @@ func firstErrorCombinator(g *ssa.Function) bool {
 		}
 	}
 	return true
+}
+
+// closureArgs: the closures handed to a call - as arguments, or as the elements of a
+// variadic list of functions (firstError(func() error {…}, func() error {…})).
+func closureArgs(ci ssa.CallInstruction) []*ssa.MakeClosure {
+	var out []*ssa.MakeClosure
+	for _, a := range ci.Common().Args {
+		if mc := staticClosureOf(a, 0); mc != nil {
+			out = append(out, mc)
+			continue
+		}
+		if sl, ok := a.Type().Underlying().(*types.Slice); ok {
+			if _, isFn := sl.Elem().Underlying().(*types.Signature); isFn {
+				for _, el := range variadicElems(a) {
+					if el == nil {
+						continue
+					}
+					if mc := staticClosureOf(el, 0); mc != nil {
+						out = append(out, mc)
+					}
+				}
+			}
+		}
+	}
+	return out
 }
